@@ -1093,15 +1093,17 @@ def main(chk: core.Check) -> int:
     c15_nsga.translate(chk)  # T-nsga2: content keys of the NSGA-II functions mirrored by Model/Nsga2.lean
     SG.regenerate(chk)  # T-suggest: Trial._suggest & co. as written today (Props/C10SuggestGen)
     from verif.props import c10_proj_gen
+    from verif.props import c10_compose
     c10_proj_gen.regenerate(chk)  # T-proj: the TPE / GP / QMC / Random projections as written today (Props/C10ProjGen)
     if not getattr(chk, "no_prove", False):
-        chk.prove(c11_gen.prove_modules("C10") + [SG.MODULE, c10_proj_gen.MODULE])
+        chk.prove(c11_gen.prove_modules("C10") + [SG.MODULE, c10_proj_gen.MODULE, c10_compose.MODULE])
         c11_gen.explain_proof_failure(chk)
         SG.explain_proof_failure(chk)
         c10_proj_gen.explain_proof_failure(chk)
     try:
         core.ensure_driver()
         c10_proj_gen.side_by_side(chk)  # hand models vs the evaluator of the generated formulas; real GP normalisation functions
+        c10_compose.pipelines(chk, chk.tier == "quick")  # the real sampler pipelines with stubbed raw sources vs proj (composition order)
         SG.differential(chk, 300 if chk.tier == "quick" else 3000)  # generated interpreter vs hand model, synthetic inputs
         SG.correspond(chk, chk.tier == "quick")  # the real suggest_* API / FixedTrial / FrozenTrial vs hand model vs interpreter
         c15_nsga.correspond(chk, chk.tier)  # NSGA-II crossover / mutation pipeline (+ whole-sampler replay)
